@@ -77,6 +77,11 @@ func extractPause() {
 	sub := strings.ReplaceAll(src(fn(file, "Subscribe")), " ", "")
 	s.boolean("pauseChBuffered1", strings.Contains(sub, "PauseCh:make(chanstruct{},1)"))
 	s.boolean("resumeChUnbuffered", strings.Contains(sub, "ResumeCh:make(chanstruct{})"))
+	// joining: serialised with Resume (same mutex, taken before the table is written), and a newcomer gets the signal when paused
+	iLock, iStore := strings.Index(sub, "manager.resumeMu.Lock()defermanager.resumeMu.Unlock()"), strings.Index(sub, "manager.subscribers.Store(chans")
+	s.boolean("subscribeSerialised", iLock >= 0 && iStore > iLock)
+	iSig := strings.Index(sub, "ifmanager.isPaused.Load(){select{casechans.PauseCh<-struct{}{}:default:}}")
+	s.boolean("subscribeSignalsWhenPaused", iSig > iStore && iStore >= 0)
 	un := strings.ReplaceAll(src(fn(file, "Unsubscribe")), " ", "")
 	s.boolean("unsubscribeDeletesThenCloses", strings.Contains(un, "manager.subscribers.Delete(chans)") &&
 		strings.Contains(un, "close(chans.PauseCh)close(chans.ResumeCh)") &&
